@@ -5,11 +5,16 @@
 # Date   : March 15, 2019
 """Provide translators that convert RTLIR to backend representation."""
 
+import re
+
 from .BaseRTLIRTranslator import TranslatorMetadata
 from .behavioral import BehavioralTranslator
 from .errors import RTLIRTranslationError
 from .structural import StructuralTranslator
 
+
+def _strip_comments( src ):
+  return re.sub( r'//[^\n]*', '', src )
 
 def mk_RTLIRTranslator( _StructuralTranslator, _BehavioralTranslator ):
   """Return an RTLIRTranslator from the two given translators."""
@@ -51,11 +56,19 @@ def mk_RTLIRTranslator( _StructuralTranslator, _BehavioralTranslator ):
           translate_component( child, components )
 
         name = s.structural.component_unique_name[m]
+        src = s.rtlir_tr_component(
+            get_component_nspace( s.behavioral, m ),
+            get_component_nspace( s.structural, m ),
+        )
         if name not in components:
-          components[name] = s.rtlir_tr_component(
-              get_component_nspace( s.behavioral, m ),
-              get_component_nspace( s.structural, m ),
-          )
+          components[name] = src
+        # Components that differ in class, parameters or behavior must not
+        # silently share the first definition generated for their name
+        # (comments carry the path of the source file and are not compared)
+        assert _strip_comments( components[name] ) == _strip_comments( src ), \
+          f"the name {name} of component {m} is already taken by a component " \
+          f"with a different translation (another class with the same name, or " \
+          f"construct arguments that have the same string)!"
         s._gen_hierarchy_metadata( 'decl_type_vector', 'decl_type_vector' )
         s._gen_hierarchy_metadata( 'decl_type_array', 'decl_type_array'   )
         s._gen_hierarchy_metadata( 'decl_type_struct', 'decl_type_struct' )
